@@ -692,6 +692,11 @@ func (p *parser) readEqToken(token []byte) {
 
 func (p *parser) readEqList() (list []any) {
 	p.pos++
+	list = []any{}
+	if p.nextNonSpace() == ']' { // an empty list
+		p.pos++
+		return
+	}
 List:
 	for p.pos < len(p.buf) {
 		eq := p.readEq()
